@@ -363,7 +363,12 @@ func runC07(c hx.Case) any {
 		}
 		classify(err)
 	}
-	return map[string]any{"ok": err == nil, "shape": shape, "parts": parts, "authLog": authLog, "route": routeUsed, "doc": docUsed}
+	kind := "reject"
+	if err == nil {
+		kind = "ok"
+	}
+	return map[string]any{"ok": err == nil, "shape": shape, "parts": parts, "authLog": authLog, "route": routeUsed, "doc": docUsed,
+		"kind": kind + "/doc:" + docUsed + "/route:" + routeUsed}
 }
 
 func sameStrs(a, b []string, ordered bool) bool {
@@ -426,6 +431,10 @@ func cmpC07(c hx.Case, impl any, reply map[string]any) hx.Verdict {
 		!sameStrs(toStrs(im["authLog"]), toStrs(model["authLog"]), true) {
 		v.IM = false
 		v.Detail = fmt.Sprintf("impl %v vs model %v", hx.Canon(im), hx.Canon(model))
+	}
+	if b, ok := model["composeAgree"].(bool); ok && !b {
+		v.IM = false
+		v.Detail = "composition: the parameter decision of the C05 model or the body verdict of the C06 model differs from the bit the case's facts give"
 	}
 	sfail := toStrs(spec["failing"])
 	if jbool(im, "ok") != jbool(spec, "accept") {
